@@ -448,21 +448,29 @@ def run(rn, mod, hs, args, t_start):
             continue
         # counterexample: extract concrete values, replay natively
         pb = rn.run_harness(h, f"pb{i}", playback=True)
-        vals = parse_playback(pb["log"])
+        # Kani prints one concrete-value vector per failed check AND per satisfied reachability witness, without saying
+        # which is which: try them in turn until one reproduces the violation natively
+        cands = parse_playbacks(pb["log"])[:8]
         rec = {"property": pid, "harness": h.name, "desc": h.desc, "kani_failure": r["why"],
-               "concrete_vals": vals, "tier": rn.tier}
+               "concrete_vals": None, "tier": rn.tier}
         lenient = False
-        if vals is None:
+        if not cands:
             # Kani's playback prints nothing when no nondeterministic value matters for the failure (typical for the
             # shape-enumerated harnesses whose schedule is a constant of the harness): replay with zero values; the
             # harness' assumptions are still checked natively, and a native violation is a violation whatever the input
-            vals, lenient = [], True
-            rec["concrete_vals"] = "none extracted by Kani; replayed with zero values (assumptions checked natively)"
-        outcomes = {}
-        for profile in h.replay_profiles:
-            ok, out = rn.replay_native(h, vals, profile, lenient=lenient)
-            outcomes[profile] = {"reproduced": ok, "output": out[-1500:]}
-            replays_done += 1
+            cands, lenient = [[]], True
+        outcomes, vals = {}, cands[0]
+        for cand in cands:
+            outcomes = {}
+            for profile in h.replay_profiles:
+                ok, out = rn.replay_native(h, cand, profile, lenient=lenient)
+                outcomes[profile] = {"reproduced": ok, "output": out[-1500:]}
+                replays_done += 1
+            vals = cand
+            if any(o["reproduced"] for o in outcomes.values()):
+                break
+        rec["concrete_vals"] = vals if not lenient else "none extracted by Kani; replayed with zero values (assumptions checked natively)"
+        rec["candidates_tried"] = len(cands)
         rec["native"] = outcomes
         repro = [p for p, o in outcomes.items() if o["reproduced"]]
         path = os.path.join(VERIF, "replays", f"{pid}_{h.name}.json")
